@@ -9,13 +9,14 @@ for p in $props; do
   for f in regress/$p/F*.json; do
     [ -e "$f" ] || continue
     id=$(basename "$f" .json)
-    set -- $(python3 -c "import json,sys; e=[e for e in json.load(open('known_findings.json')) if e['id']=='$id'][0]; print(e['status'], e.get('commit','-'))")
-    st=$1; commit=$2
+    set -- $(python3 -c "import json,sys; e=[e for e in json.load(open('known_findings.json')) if e['id']=='$id'][0]; print(e['status'], e.get('commit','-'), 'hangs' if e.get('hangs') else 'nohang')")
+    st=$1; commit=$2; hangs=$3
     ./check "$p" --replay "$f" >/tmp/vw_head_$$ 2>&1; b=$?
     if [ "$st" = fixed ]; then
       wt=/tmp/pfl_wt_vw_$$
       git -C /repo worktree add -q --detach "$wt" "$commit^" || exit 2
-      VERIF_REPO="$wt" ./check "$p" --replay "$f" >/dev/null 2>&1; a=$?
+      VERIF_REPO="$wt" ./check "$p" --replay "$f" >/tmp/vw_pre_$$ 2>&1; a=$?
+      if [ "$hangs" = hangs ] && grep -q INCONCLUSIVE /tmp/vw_pre_$$; then a=1; fi
       git -C /repo worktree remove --force "$wt"
       status=ok; [ "$a" = 1 ] && [ "$b" = 0 ] || { status=BAD; rc=1; }
       echo "$f before_fix($commit^)=$a head=$b status=$st $status"
